@@ -337,6 +337,48 @@ func c14Stress(st *c14State, inputs []c14Input, shared [][]probe.Obj, G, procs, 
 					runtime.GC()
 				}
 			}
+			kcount := 0
+			keep := func(p pair, what string) {
+				kcount++
+				if len(ring) < cap(ring) {
+					ring = append(ring, p)
+				} else {
+					j := r.Intn(len(ring))
+					if ring[j].s != ring[j].clone {
+						st.mismatch(Violation{Kind: "returned-string-changed-afterwards", Steps: []Step{{Op: "vector"}}, Expected: ring[j].clone, Observed: ring[j].s, Detail: map[string]any{"returned_by": what}})
+					}
+					st.rechk.Add(1)
+					ring[j] = p
+				}
+				if kcount%64 == 0 {
+					gring.mu.Lock()
+					if len(gring.p) < 4096 {
+						gring.p = append(gring.p, p)
+					} else {
+						j := r.Intn(len(gring.p))
+						q := gring.p[j]
+						gring.p[j] = p
+						if q.s != q.clone {
+							st.mismatch(Violation{Kind: "returned-string-changed-afterwards", Steps: []Step{{Op: "vector"}}, Expected: q.clone, Observed: q.s, Detail: map[string]any{"returned_by": what}})
+						}
+						st.rechk.Add(1)
+					}
+					gring.mu.Unlock()
+				}
+			}
+			keepErr := func(api *probe.API, err error, src string) {
+				if err == nil {
+					return
+				}
+				h := heldErr{api, err, api.Classify(err), src}
+				if len(ering) < cap(ering) {
+					ering = append(ering, h)
+				} else {
+					j := r.Intn(len(ering))
+					ering[j].check(st, src)
+					ering[j] = h
+				}
+			}
 			for k := 0; k < opsPer; k++ {
 				switch op := r.Intn(16); {
 				case op < 6: // parse a shared input; keep some of the returned objects and re-verify them later
@@ -376,6 +418,28 @@ func c14Stress(st *c14State, inputs []c14Input, shared [][]probe.Obj, G, procs, 
 					if got != x.sig {
 						st.mismatch(Violation{Kind: "shared-object-result-changed", Version: spec.Versions[x.ver].Name, Steps: append(parseSteps(x.vec), Step{Op: "vector"}, Step{Op: "score"}), Expected: x.sig, Observed: got, Detail: map[string]any{"workload": tag}})
 					}
+					{
+						// strings returned by Get / Nomenclature and errors returned by Get / Set are the caller's too: keep them
+						api := probe.APIs[x.ver]
+						me := api.Ver.Metrics[r.Intn(api.Ver.N())]
+						if gs, gerr, _ := probe.SafeGet(x.o, me.Abv); gerr == nil {
+							keep(pair{gs, strings.Clone(gs)}, "Get")
+						}
+						if api.Nomencl != nil {
+							ns, _ := api.SafeNomencl(x.o)
+							keep(pair{ns, strings.Clone(ns)}, "Nomenclature")
+						}
+						bad := []string{"XX", me.Abv + "Q", strings.ToLower(me.Abv), "M" + me.Abv}[r.Intn(4)]
+						if api.Ver.Index(bad) < 0 {
+							_, gerr, _ := probe.SafeGet(x.o, bad)
+							keepErr(api, gerr, "get:"+bad)
+							cl := x.o.Clone()
+							serr, _ := probe.SafeSet(cl, bad, "N")
+							keepErr(api, serr, "set:"+bad)
+							serr2, _ := probe.SafeSet(cl, me.Abv, "nope")
+							keepErr(api, serr2, "set-value:"+me.Abv)
+						}
+					}
 				case op < 11: // Vector(): keep the string next to a clone taken immediately
 					x := &objs[r.Intn(len(objs))]
 					s, _ := probe.SafeVector(x.o)
@@ -384,31 +448,7 @@ func c14Stress(st *c14State, inputs []c14Input, shared [][]probe.Obj, G, procs, 
 					if s != x.vec {
 						st.mismatch(Violation{Kind: "vector-result-changed", Version: spec.Versions[x.ver].Name, Steps: append(parseSteps(x.vec), Step{Op: "vector"}), Expected: x.vec, Observed: s})
 					}
-					if len(ring) < cap(ring) {
-						ring = append(ring, p)
-					} else {
-						j := r.Intn(len(ring))
-						if ring[j].s != ring[j].clone {
-							st.mismatch(Violation{Kind: "returned-string-changed-afterwards", Steps: []Step{{Op: "vector"}}, Expected: ring[j].clone, Observed: ring[j].s})
-						}
-						st.rechk.Add(1)
-						ring[j] = p
-					}
-					if k%64 == 0 {
-						gring.mu.Lock()
-						if len(gring.p) < 4096 {
-							gring.p = append(gring.p, p)
-						} else {
-							j := r.Intn(len(gring.p))
-							q := gring.p[j]
-							gring.p[j] = p
-							if q.s != q.clone {
-								st.mismatch(Violation{Kind: "returned-string-changed-afterwards", Steps: []Step{{Op: "vector"}}, Expected: q.clone, Observed: q.s})
-							}
-							st.rechk.Add(1)
-						}
-						gring.mu.Unlock()
-					}
+					keep(p, "vector")
 				case op < 13: // copy independence: Set on a goroutine-local copy of a shared object
 					x := &objs[r.Intn(len(objs))]
 					v := spec.Versions[x.ver]
@@ -474,6 +514,8 @@ func c14Stress(st *c14State, inputs []c14Input, shared [][]probe.Obj, G, procs, 
 					want, ok := ratingOracle(x)
 					for _, vid := range []int{spec.V30, spec.V31, spec.V40} {
 						got, err, _ := probe.APIs[vid].SafeRating(x)
+						keep(pair{got, strings.Clone(got)}, "Rating")
+						keepErr(probe.APIs[vid], err, "rating")
 						if (err == nil) != ok || got != want {
 							st.mismatch(Violation{Kind: "rating-result-changed", Version: spec.Versions[vid].Name, Steps: []Step{{Op: "rating", F: fstr(x)}}, Expected: want, Observed: got})
 						}
